@@ -672,3 +672,37 @@ Proof.
     match type of F with fold_left _ _ ?acc = _ => pose proof (put_jobs_ns_other c done acc x Hd) as P end.
     rewrite F in P. cbn [fst] in P. rewrite P, N2. exact B3.
 Qed.
+
+(* an ordinary dispatch from a state reached through refused requests: the
+   runnable unit is released AND its message is made (nothing stays held) *)
+Lemma tick_progress_G c s x t : GInv c s -> active s = true -> paused s = false ->
+  x < nnodes c -> In t (todo (getn (ns s) x)) -> ~ In t (doing (getn (ns s) x)) ->
+  (forall a, In a (anc (gi c x)) ->
+     ~ In t (todo (getn (ns s) a)) /\ ~ In t (doing (getn (ns s) a)) /\
+     ~ In ALL (todo (getn (ns s) a)) /\ ~ In ALL (doing (getn (ns s) a))) ->
+  (In ALL (todo (getn (ns s) x)) -> forall a, In a (anc (gi c x)) -> ~ In a (que s)) ->
+  let s' := fst (dispatch c s) in
+  ~ In t (todo (getn (ns s') x)) /\ In t (doing (getn (ns s') x)) /\
+  exists m, In m (cluster s' ++ map snd (inflight s')) /\ m_job m = x /\ m_tgt m = t.
+Proof.
+  intros G A Hp Hx Ht Hnd Hanc Hall. cbn zeta.
+  pose proof (dispatch_empties_jobs c s A) as J0. rewrite dispatch_is_fault0 in *.
+  destruct (fault_progress c 0 s x t G A Hp Hx Ht Hnd Hanc Hall) as (P1 & P2 & [P3|[P3 _]]).
+  - auto.
+  - rewrite J0 in P3. contradiction.
+Qed.
+
+(* C01, bookkeeping level, any tick of any history *)
+Lemma tick_release_safe_faults c xs e x t : is_tick e ->
+  let s := xrun c (init c) xs in
+  let s' := fst (xstep c s e) in
+  In t (doing (getn (ns s') x)) -> ~ In t (doing (getn (ns s) x)) -> anc_idle c s' x t.
+Proof.
+  cbn zeta. intros T H N. destruct (fresh_now c xs e x t T N H) as (xs1 & e1 & xs2 & E & _ & F).
+  (* the witness of fresh_now is this very tick *)
+  destruct (tick_as_fault c (xrun c (init c) xs) e T) as [k Ek]. rewrite Ek in *.
+  destruct (xrun_GInv c xs (init c) (init_GInv c)) as (_ & Q & _).
+  destruct (active (xrun c (init c) xs)) eqn:A.
+  - apply fault_release_safe; assumption.
+  - rewrite dispatch_fault_inactive in H by exact A. contradiction.
+Qed.
